@@ -40,8 +40,9 @@ func config(namespaces ...string) model.ClusterConfig {
 }
 
 // body: elections = number of consecutive elections of ns1's shard whose status writes race with the
-// configuration change.
-func body(elections int) func(s *vsched.Sched) {
+// configuration change; viaDelete: instead of ConfigChanged, the other writer is the removal of the metadata
+// of a deleted shard (what a shard controller does once every ensemble member confirmed the deletion).
+func body(elections int, viaDelete bool) func(s *vsched.Sched) {
 	return func(s *vsched.Sched) {
 		s.Explore(false)
 		meta := metadata.NewMetadataProviderMemory()
@@ -82,7 +83,15 @@ func body(elections int) func(s *vsched.Sched) {
 				sent = m.Term // from here on NewTerm(sent) is on its way to the nodes
 			}
 		})
-		vsched.Go(func() { vc.VerifRealConfigChanged(config("ns1")) })
+		if viaDelete {
+			var other int64 = -1
+			for id := range st.Namespaces["ns2"].Shards {
+				other = id
+			}
+			vsched.Go(func() { sr.DeleteShardMetadata("ns2", other) })
+		} else {
+			vsched.Go(func() { vc.VerifRealConfigChanged(config("ns1")) })
+		}
 		s.Settle()
 		s.Explore(false)
 		// a restarted coordinator loads the status from the metadata store
@@ -97,6 +106,12 @@ func body(elections int) func(s *vsched.Sched) {
 		}
 		_, ns2 := got.Namespaces["ns2"]
 		del := ns2
+		if viaDelete {
+			if ns2 && len(got.Namespaces["ns2"].Shards) != 0 {
+				s.Fail("config-change-lost", "the metadata of the deleted shard of ns2 is still stored")
+			}
+			ns2 = false
+		}
 		if ns2 {
 			for _, m := range got.Namespaces["ns2"].Shards {
 				del = del && m.Status == model.ShardStatusDeleting
@@ -116,8 +131,10 @@ func scenarios(tier string) []sched.Scenario {
 		dev = 5
 	}
 	return []sched.Scenario{
-		{Name: "config-change-vs-election-status-write", Cfg: cfg, MaxDev: dev, Body: body(1)},
-		{Name: "config-change-vs-two-election-status-writes", Cfg: cfg, MaxDev: dev, Body: body(2)},
+		{Name: "config-change-vs-election-status-write", Cfg: cfg, MaxDev: dev, Body: body(1, false)},
+		{Name: "config-change-vs-two-election-status-writes", Cfg: cfg, MaxDev: dev, Body: body(2, false)},
+		{Name: "shard-metadata-removal-vs-election-status-write", Cfg: cfg, MaxDev: dev, Body: body(1, true)},
+		{Name: "shard-metadata-removal-vs-two-election-status-writes", Cfg: cfg, MaxDev: dev, Body: body(2, true)},
 	}
 }
 
@@ -132,7 +149,7 @@ func main() {
 			}
 			return 40 * time.Second
 		},
-		Rule:   "every schedule with at most max_dev non-default scheduling choices of the real coordinator.ConfigChanged (a namespace removed) racing with one or two status writes of an election of another shard on the real status resource over the in-memory metadata provider",
+		Rule:   "every schedule with at most max_dev non-default scheduling choices of the real coordinator.ConfigChanged (a namespace removed), or of the removal of a deleted shard's metadata (StatusResource.DeleteShardMetadata), racing with one or two status writes of an election of another shard on the real status resource over the in-memory metadata provider",
 		Assume: []string{"sequentially consistent memory", "deviation-bounded schedules", "the election is represented by its status write (UpdateShardMetadata with term+1), the step after which NewTerm is sent"}}
 	os.Exit(sched.Main(su, *replay))
 }
